@@ -6,7 +6,17 @@ open ActixNet.Utf8 ActixNet.ByteString Driver
 
 def ordStr : Ordering → String | .lt => "lt" | .eq => "eq" | .gt => "gt"
 
-def step (st : Store) (line : String) : Store × String :=
+/-- where a value lives: buffer id and offset (only meaningful for non-empty values; `Bytes` views of
+one allocation share the id).  This is the memory side of `Bytes::slice_ref` (trusted: the `bytes`
+crate), kept in the driver; the bytes of every value are those of the verified model `Store`. -/
+structure State where
+  st : Store := []
+  prov : List (Nat × Nat) := []
+  nextBuf : Nat := 0
+
+def init : State := {}
+
+def stepStore (st : Store) (line : String) : Store × String :=
   match words line with
   | "case" :: _ => ([], "ok")
   | ["valid", h] => match parseHex h with
@@ -59,5 +69,46 @@ def step (st : Store) (line : String) : Store × String :=
       | none => (st, "bad-op")
     | _, _ => (st, "bad-op")
   | _ => (st, "bad-op")
+
+def step (s : State) (line : String) : State × String :=
+  let ws := words line
+  match ws with
+  | "case" :: _ => ({}, "ok")
+  | ["xslice", r, k, i, j] =>
+    -- `st[r].slice_ref(&st[k][i..j])`: the subset comes from ANOTHER value (possibly another view of the same buffer)
+    match r.toNat?, k.toNat?, i.toNat?, j.toNat? with
+    | some r, some k, some i, some j =>
+      match s.st[r]?, s.st[k]?, s.prov[r]?, s.prov[k]? with
+      | some br, some bk, some pr, some pk =>
+        if i ≤ j && isBoundary bk i && isBoundary bk j then
+          let contained := pr.1 == pk.1 && decide (pr.2 ≤ pk.2 + i) && decide (pk.2 + j ≤ pr.2 + br.length)
+          if i == j || contained then
+            match ActixNet.ByteString.step s.st (.sliceRef k i j) with
+            | some st' => ({ s with st := st', prov := s.prov ++ [(pk.1, pk.2 + i)] }, s!"ok {toHex (st'.getD s.st.length [])}")
+            | none => (s, "panic")
+          else (s, "panic")
+        else (s, "panic")
+      | _, _, _, _ => (s, "bad-op")
+    | _, _, _, _ => (s, "bad-op")
+  | _ =>
+    let (st', out) := stepStore s.st line
+    -- provenance of the values the operation pushed
+    let added := st'.length - s.st.length
+    let prov' :=
+      match ws with
+      | ["split", k, i] => match k.toNat?, i.toNat?, s.prov[k.toNat?.getD 0]? with
+        | some _, some i, some p => if added == 2 then s.prov ++ [p, (p.1, p.2 + i)] else s.prov
+        | _, _, _ => s.prov
+      | ["slice", k, i, _] => match k.toNat?, i.toNat?, s.prov[k.toNat?.getD 0]? with
+        | some _, some i, some p => if added == 1 then s.prov ++ [(p.1, p.2 + i)] else s.prov
+        | _, _, _ => s.prov
+      | ["clone", k] => match s.prov[k.toNat?.getD 0]? with
+        | some p => if added == 1 then s.prov ++ [p] else s.prov
+        | none => s.prov
+      | _ => if added == 1 then s.prov ++ [(s.nextBuf, 0)] else s.prov
+    let fresh := match ws with
+      | ["tryfrom", _] | ["fromstr", _] => added == 1
+      | _ => false
+    ({ st := st', prov := prov', nextBuf := if fresh then s.nextBuf + 1 else s.nextBuf }, out)
 
 end Driver.Bs
